@@ -33,3 +33,6 @@ MANIFEST_ENTRY = {
             "operand order; memoize.wrapper is proved to return the function's value and keep the cache invariant. Leaf selection kinds and whole trees on real datasets are covered by a bounded per-node contract check.",
     "note": "Trusted: element-wise numpy semantics (A-NP), copy() contract of leaves, object-construction model, pyvc + z3. Leaves are bounded only (3 datasets, ~15 leaf kinds, trees to depth 3/4).",
 }
+
+MANIFEST_ENTRY['text'] += ' The statistic kernel that receives (possibly cached) masks is proved never to write the arrays it is handed.'
+TRUSTED_BASE.append('statistic kernel contract: numpy calls are provenance-recording stubs (np.asanyarray returns the object it is given, comparison/isfinite/indexing with an array return fresh arrays, in-place operators and item assignment write the object they are applied to); whether an array is writeable or owns its memory is left open')
